@@ -163,11 +163,16 @@ def analyse(calls: list[dict[str, Any]], config: Any, transforms: Any, emap: Any
         unpert = [(i, r) for i, (r, p) in enumerate(labels) if p < 0]
         pert = [(i, r, p) for i, (r, p) in enumerate(labels) if p >= 0]
         status = "ok"
-        n_vec = max(1, len(unpert) // n_real) if unpert else 0
+        # rows of one variable vector are grouped by the vector itself (the order of the rows inside a request is not
+        # specified), and put in realization order
+        groups: dict[bytes, list[tuple[int, int]]] = {}
+        for i, r in unpert:
+            groups.setdefault(np.asarray(call["variables"][i], dtype=np.float64).tobytes(), []).append((i, r))
+        n_vec = len(groups)
         failed_f_last = None
         x_user = None
-        for b in range(n_vec):
-            rows = unpert[b * n_real:(b + 1) * n_real]
+        for rows in groups.values():
+            rows = sorted(rows, key=lambda item: item[1])
             failed_f = np.array([i in failing for i, _ in rows])
             x_user = call["variables"][rows[0][0]]
             values = np.array([fn(np.asarray(x_user, dtype=np.float64), r) for _, r in rows])
